@@ -19,9 +19,16 @@ What is DECIDED BY EXECUTION, per generated program (partial):
     through the builders; families incl. lexers naming tokens the grammar lacks and one grammar with a
     programs section > 80 KB), `include!`d (as lrpar_mod!/lrlex_mod! do) into ONE throw-away crate,
     compiled with rustc, run on generated inputs, and compared with the run-time pipeline
-    (from_str + set_rule_ids + RTParserBuilder) on lexemes, value/tree, errors and repair
-    sets, token_epp, R_*/N_* constants; the value is also recomputed by the extracted Coq
+    (from_str + set_rule_ids + RTParserBuilder) on lexemes, value/tree, number of errors, every error's
+    repairs() list IN ORDER (REPAIR_ORDER_FIXED, /repo ca69cd1: its head is the sequence recovery applied —
+    a function of the input), token_epp, R_*/N_* constants, on EVERY input; each erroneous input is parsed
+    CT_CALLS times by the generated parse(); families tied:* give >= 50 inputs whose first error has >= 2
+    equally ranked repair sequences per quick run; the value is also recomputed by the extracted Coq
     wrapper model from the run-time reduction log;
+  * scope (premise "once compiled" not met; NOT findings): three specifications the builders accept whose
+    generated module rustc rejects (names differing only in case -> duplicate R_* / N_* constants;
+    `%parse-param grm` shadowed by a local of parse()) are generated, the rustc failure is recorded in
+    the evidence (coverage.scope_observations); a module that compiles is compared like all others;
   * flags: the twelve quoted options of every generated lexerdef() are read back and
     evaluated by the model.
 PIPELINE AS A THEOREM (theories/C13/Pipeline*.v, over C14's codec): the generated parse() is
@@ -29,9 +36,12 @@ PIPELINE AS A THEOREM (theories/C13/Pipeline*.v, over C14's codec): the generate
 (a parameter: any function of the decoded values, the recovery kind, the entry point and the
 input) it returns what the run-time call on the built objects returns, in both formats and
 all widths (C13_ct_equals_rt); the generated lexerdef() rebuilds the run-time definition
-(C13_ct_lexerdef_equals_rt).  The facts about the generated text that this model assumes
+(C13_ct_lexerdef_equals_rt).  PER RUN (theories/C13/PipelineRun*.v): with the run-time parser a RELATION (one run may
+return r) the generated parse() has the same set of outcomes (C13_ct_runs_are_rt_runs); equal value and errors on every
+input, erroneous ones with tied repairs included, need the parser to be a function — applied_repair_determined, the
+fact /repo ca69cd1 established (C13_ct_equals_rt_value; C13_ct_equals_rt_value_refuted for the pinned selection).  The facts about the generated text that this model assumes
 (P1-P4, L1 at the head of PipelineModel.v) are checked on every generated module
-(static_module_part); C13_SELFTEST=recoverer|swapdata|format|databyte|ruleflags|config damages them.
+(static_module_part); C13_SELFTEST=recoverer|swapdata|format|databyte|ruleflags|config damages them (scopefix: see tamper).
 """
 import os
 import re
@@ -42,6 +52,14 @@ from gen import c13gen
 from gen.c13gen import hx
 
 LEVEL = "proof"
+# /repo ca69cd1 (fix: simplify_repairs deduplicates in insertion order and sorts stably): the repairs() list of an error, hence
+# the repair sequence that is APPLIED (its head), the value and every later error are a function of the input.  True: the
+# generated parse(), the run-time call and the model are compared on value, number of errors and every error's repairs() list
+# IN ORDER on every input (C13_ct_equals_rt_value: its hypothesis applied_repair_determined is that fact).  False (the pinned
+# code): repairs are compared as sets and what follows an error with several sequences is not compared (C13_ct_runs_are_rt_runs
+# is all that holds; C13_ct_equals_rt_value_refuted).
+REPAIR_ORDER_FIXED = True
+CT_CALLS = 3          # calls of the generated parse() per erroneous input
 BUDGET_ENV = {"GRMTOOLS_VERIF_RECOVERY_BUDGET_MS": "60000"}
 CRATE = "c13ct"
 
@@ -145,14 +163,24 @@ def kvlist(s):
 IDENT = re.compile(r"^[a-zA-Z_][a-zA-Z_0-9]*$")
 
 
+def const_names(meta):
+    """the rules / tokens whose R_* / N_* constant the glue code reads: those whose upper-cased name is unique (two names
+    differing only in case give ONE constant name — the `scope` programs; never so in the other families)"""
+    def unique(hs):
+        names = [unhx(h) for h in hs]
+        return [h for h, n in zip(hs, names) if sum(1 for x in names if x.upper() == n.upper()) == 1]
+    return (unique([h for h, _ in kvlist(meta["RULES"])]),
+            unique([h for h, _ in kvlist(meta["TOKS"]) if IDENT.match(unhx(h))]))
+
+
 def module_source(d, pr, meta):
     name = pr['name']
     ymod = pr['settings']['mody'] if pr['settings']['mody'] != "-" else name + "_y"
     lmod = pr['settings']['modl'] if pr['settings']['modl'] != "-" else name + "_l"
     ntok = len(kvlist(meta["EPP"]))
-    rules = ", ".join('format!("%s={}", %s::R_%s)' % (h, ymod, unhx(h).upper()) for h, _ in kvlist(meta["RULES"]))
-    toks = ", ".join('format!("%s={}", %s::N_%s)' % (h, lmod, unhx(h).upper()) for h, _ in kvlist(meta["TOKS"])
-                     if IDENT.match(unhx(h)))
+    rnames, tnames = const_names(meta)
+    rules = ", ".join('format!("%s={}", %s::R_%s)' % (h, ymod, unhx(h).upper()) for h in rnames)
+    toks = ", ".join('format!("%s={}", %s::N_%s)' % (h, lmod, unhx(h).upper()) for h in tnames)
     param = ", %du64" % pr['parse_param'] if (pr['parse_param'] is not None and pr['yk'] in 'GU') else ""
     val = "crate::gv::val_tree(&v)" if pr['yk'] == 'O' else "crate::gv::val_string(&v)"
     return """
@@ -175,12 +203,23 @@ mod %(name)s {
             let lexer = ld.lexer(inp);
             let lx = crate::gv::lexemes(&lexer);
             let (v, es) = %(ymod)s::parse(&lexer%(param)s);
-            out.push(format!("{} | {} | {}", lx, %(val)s, crate::gv::errs(&es)));
+            let mut line = format!("{} | {} | {}", lx, %(val)s, crate::gv::errs(&es));
+            if !es.is_empty() {
+                // an erroneous input: the generated parse() is called again (a fresh lexer each time); every call
+                // has to return the same lexemes, value and errors with the same repairs() lists
+                for _ in 1..%(calls)d {
+                    let lexer = ld.lexer(inp);
+                    let lx = crate::gv::lexemes(&lexer);
+                    let (v, es) = %(ymod)s::parse(&lexer%(param)s);
+                    line.push_str(&format!(" @@ {} | {} | {}", lx, %(val)s, crate::gv::errs(&es)));
+                }
+            }
+            out.push(line);
         }
         out
     }
 }
-""" % dict(name=name, d=d, ymod=ymod, lmod=lmod, ntok=ntok, rules=rules, toks=toks, param=param, val=val)
+""" % dict(name=name, d=d, ymod=ymod, lmod=lmod, ntok=ntok, rules=rules, toks=toks, param=param, val=val, calls=CT_CALLS)
 
 
 MAIN_HEAD = """#![allow(warnings)]
@@ -235,17 +274,21 @@ def write_crate(cdir, d, progs, metas, nbins):
     toml = toml.replace('name = "gvh"\nversion', 'name = "%s"\nautobins = false\nversion' % CRATE)
     toml = re.sub(r"\[lib\]\nname = \"gvh\"\npath = \"src/lib.rs\"\n", "", toml)
     by_ed = {}
-    for pr in progs:
+    solo = [pr for pr in progs if pr.get('scope')]          # expected to be rejected by rustc: a target of its own
+    rest = [pr for pr in progs if not pr.get('scope')]
+    for pr in rest:
         # output generated for Rust2015 is compiled in a 2021 target: a 2015-edition rustc rejects it (see
         # the assumptions), which puts it outside the property's premise "once compiled"
         by_ed.setdefault("2021" if pr['settings']['ed'] == "2015" else pr['settings']['ed'], []).append(pr)
     groups = []
     for ed, prs in sorted(by_ed.items()):
-        k = max(1, min(len(prs), round(nbins * len(prs) / len(progs))))
+        k = max(1, min(len(prs), round(nbins * len(prs) / len(rest))))
         for j in range(k):
             part = prs[j::k]
             if part:
                 groups.append((ed, part))
+    for pr in solo:
+        groups.append((pr['settings']['ed'], [pr]))
     names = []
     for b, (ed, prs) in enumerate(groups):
         src = MAIN_HEAD % core.HARNESS
@@ -309,6 +352,33 @@ def split_result(r):
     return lex, val, n, es, red
 
 
+def err_as_set(e):
+    """an error with its repair sequences sorted (the SET of sequences)"""
+    if e is None or not e.startswith("P"):
+        return e
+    head, body = e.split("{", 1)
+    return head + "{" + ";".join(sorted(body[:-1].split(";"))) + "}"
+
+
+def repair_seqs(e):
+    if e is None or not e.startswith("P"):
+        return []
+    body = e.split("{", 1)[1][:-1]
+    return body.split(";") if body else []
+
+
+def tied_first_rank(e, avoid_ids):
+    """the repairs() list of error `e` starts with >= 2 sequences of ONE rank — simplify_repairs sorts on (contains an
+    insertion of an %avoid_insert token, length) only: which of them is applied is decided by the order alone"""
+    seqs = repair_seqs(e)
+    if len(seqs) < 2:
+        return False
+    def key(sq):
+        items = sq.split(".")
+        return (any(it.startswith("I") and it[1:] in avoid_ids for it in items), len(items))
+    return key(seqs[0]) == key(seqs[1])
+
+
 def compare_results(ct, rt):
     """compare what the property constrains; returns (list of differences, value_compared, deterministic)"""
     diffs = []
@@ -321,13 +391,17 @@ def compare_results(ct, rt):
     for i in range(max(len(ces), len(res))):
         a = ces[i] if i < len(ces) else None
         b = res[i] if i < len(res) else None
-        if a != b:
+        if err_as_set(a) != err_as_set(b):
             diffs.append(("error %d (position + repair set)" % i, a, b))
             return diffs, False, det
-        # the repair that is applied is the first of the ranked list; among several sequences of
-        # the same rank its choice is not determined (randomly seeded HashSet): what follows an
-        # error with more than one repair sequence is not compared
-        if a is not None and a.startswith("P") and a.count(";") >= 1:
+        if REPAIR_ORDER_FIXED:
+            # the repairs() list IN ORDER: its head is the sequence recovery applied
+            if a != b:
+                diffs.append(("error %d: repairs() holds the same sequences in another ORDER (the first one is the one applied)" % i, a, b))
+                break
+        elif a is not None and a.startswith("P") and a.count(";") >= 1:
+            # pinned code: among several sequences of the same rank the applied one was not determined (randomly
+            # seeded HashSet): what follows an error with more than one repair sequence is not compared
             det = False
             break
     if det:
@@ -612,11 +686,17 @@ def plan(ctx):
               (lambda r: c13gen.fam_keywords(r, "stmts"), "U", {"entry": "build", "amp": "-"})]
     # ONE program whose grammar has a programs section of > 80 KB (big embedded constants at the parser's start-up)
     first += [(c13gen.fam_expr, "G", {"ser": "V"}, {"big_programs": 90000})]
+    # inputs whose first error has >= 2 equally ranked repair sequences (the auditor's grammar; statements with an
+    # alternative missing; lists with two openers): the applied sequence decides the value and the later errors
+    def ft(variant):
+        return lambda r: c13gen.fam_tied(r, variant)
+    first += [(ft("audit"), "G", {"rec": "C"}), (ft("alt"), "G", {"rec": "C"}), (ft("openers"), "U", {"rec": "-"}),
+              (ft("alt"), "O", {"rec": "-"}), (ft("openers"), "G", {"rec": "C", "entry": "pf"}), (ft("audit"), "O", {"rec": "C"})]
     first += [(c13gen.fam_expr, "G"), (c13gen.fam_insert, "U"), (c13gen.fam_long, "G"),
               (c13gen.fam_list, "O"), (c13gen.fam_list, "G"), (c13gen.fam_insert, "G"),
               (c13gen.fam_random, "G"), (c13gen.fam_expr, "U"),
               (c13gen.fam_states, "G"), (c13gen.fam_states, "O")]
-    k = ctx.n(56, 300)
+    k = ctx.n(62, 300)
     for i in range(k):
         if i < len(first):
             f, yk = first[i][0], first[i][1]
@@ -638,6 +718,10 @@ def plan(ctx):
             while key in progs[idx].get('pinned_keys', ()):
                 idx = (idx + 1) % len(progs)
             progs[idx]['settings'][key] = v
+    # SCOPE (premise "once compiled" not met — measured, not findings): specifications the builders accept whose generated
+    # module rustc rejects; should one compile after a change, it is compared like any other program
+    for j, (variant, yk) in enumerate(c13gen.SCOPE_VARIANTS):
+        progs.append(c13gen.make_scope_program(rng, k + j, variant, yk))
     return progs
 
 
@@ -689,6 +773,19 @@ def tamper(d, progs, how):
             src = open(yp).read()
             src = re.sub(r"(with_fixint_encoding\s*\(\s*\))\s*\.\s*disable_preallocation_size_limit\s*\(\s*\)", r"\1", src)
             open(yp, "w").write(src)
+        if how == "scopefix" and pr.get('scope'):
+            # what a repaired code generator could write for the SCOPE programs (distinct constant names, a local that does
+            # not shadow the parameter): the modules compile and must then behave like the run-time pipeline
+            for path, pat in ((yp, r"pub const R_A: u32"), (lp, r"pub const N_E: u32")):
+                src = open(path).read()
+                if src.count(pat) == 2:
+                    i = src.rindex(pat)
+                    src = src[:i] + pat.replace(": u32", "_2: u32") + src[i + len(pat):]
+                    open(path, "w").write(src)
+            if pr.get('param_name') == "grm":
+                src = open(yp).read()
+                src = src.replace("let grm = __data.grm();", "let __gt_grm = __data.grm();").replace("RTParserBuilder::new(grm, stable)", "RTParserBuilder::new(__gt_grm, stable)")
+                open(yp, "w").write(src)
         if how == "okerr" and os.path.exists(yp):
             src = open(yp).read()
             src = src.replace("if l.faulty() { Err(l) } else { Ok(l) }", "if l.faulty() { Ok(l) } else { Err(l) }")
@@ -707,11 +804,17 @@ def pipeline_part(ctx, exe, mexe, d):
         tamper(d, progs, os.environ["C13_SELFTEST"])
     accepted, metas, rtres = [], {}, {}
     skipped = 0
+    scope_obs = []
     for pr, g, r in zip(progs, gen, rt):
         desc = {"family": pr['family'], "yk": pr['yk'], "settings": pr['settings'], "lex_section": pr['lex_section'],
                 "lex_api": pr['lex_api'], "parse_param": pr['parse_param']}
         if not g.startswith("OK"):
             msg = unhx(g.split()[1]) if len(g.split()) > 1 else g
+            if pr.get('scope') and g.startswith("ERR"):
+                # the builders now REJECT the specification: outside the property's domain ("the builders accept")
+                scope_obs.append({"program": pr['family'], "why": pr['scope'], "builders": "Err: " + msg[:300], "rustc": "not reached"})
+                ctx.count("scope_%s_rejected_by_builder" % pr['family'].split(":")[1])
+                continue
             if not r.startswith("OK") or (pr['family'] == "random" and not g.startswith("PANIC")):
                 # outside the property's domain: the builders do not accept it (rejected by both pipelines, or a
                 # random grammar with conflicts, which only the compile-time builder treats as an error)
@@ -789,6 +892,10 @@ def pipeline_part(ctx, exe, mexe, d):
                     outputs.setdefault(f[0], {})[f[1]] = f[2] if len(f) > 2 else ""
                 continue
             blamed = [pr for pr in prs if pr['name'] in perr]
+            if not blamed and len(prs) == 1:
+                perr[prs[0]['name']] = [b[:1200] for b in blocks if b.startswith("error") and bn in b][:3] or \
+                                       ["rustc rejects target %s (the only program of the target)" % bn]
+                blamed = prs
             if not blamed:
                 raise core.GateFailure("c13-crate-build", p.stderr[-6000:])
             for pr in prs:
@@ -799,17 +906,31 @@ def pipeline_part(ctx, exe, mexe, d):
                     broken[pr['name']] = "\n".join(errs)[:4000]
         todo = nxt
     for pr in accepted:
+        if pr.get('scope'):
+            # premise "once compiled": build() is Ok and rustc rejects the module -> an OBSERVATION in the evidence; if the
+            # module compiles it is compared below like every other program
+            codes = sorted(set(re.findall(r"error\[(E\d+)\]", broken.get(pr['name'], ""))))
+            first = re.search(r"error(?:\[E\d+\])?: [^\n]*", broken.get(pr['name'], ""))
+            scope_obs.append({"program": pr['family'], "why": pr['scope'], "builders": "Ok",
+                              "rustc": ("rejects: %s %s" % (",".join(codes), first.group(0)[:200] if first else "")).strip()
+                              if pr['name'] in broken else "compiles: compared with the run-time pipeline like every program"})
+            ctx.count("scope_%s_%s" % (pr['family'].split(":")[1], "rustc_rejects_" + "_".join(codes) if pr['name'] in broken else "compiles"))
+            ctx.case("scope %s" % pr['family'], False,
+                     {"kind": "scope-observation", "grammar": c13gen.render_y(pr), "lexer": c13gen.render_l(pr), "observation": scope_obs[-1]})
+            continue
         if pr['name'] in broken:
             ctx.violation({"kind": "counterexample", "what": "the generated module is rejected by rustc",
                            "grammar": c13gen.render_y(pr), "lexer": c13gen.render_l(pr), "settings": pr['settings'],
                            "yacckind": pr['yk'], "rustc": broken[pr['name']]})
-    ctx.oblige(not broken, "generated modules compile")
+    ctx.coverage["scope_observations"] = scope_obs
+    ctx.oblige(not [pr for pr in accepted if pr['name'] in broken and not pr.get('scope')], "generated modules compile")
 
     # ---- compare ----
     ndiff = 0
     nprog_compared = 0
     evl, evmeta = [], []
     stats = dict(inputs=0, with_errors=0, values_compared=0, err_values=0, nondet_skipped=0, lexerr=0, avoid_insert_err_values=0,
+                 tied_inputs=0, tied_first_error=0, tied_then_later_errors=0, tied_values=0, ct_repeat_calls=0, several_sequences=0,
                  unused_token_rule_hits=0, process_file_inputs=0, process_file_recN_error_inputs=0, process_file_recC_repaired_inputs=0)
     for pr in accepted:
         name = pr['name']
@@ -836,10 +957,11 @@ def pipeline_part(ctx, exe, mexe, d):
         if cm.get("EPP") != m.get("EPP"):
             ndiff += 1
             ctx.violation(dict(base, what="token_epp differs", compiled=cm.get("EPP"), runtime=m.get("EPP")))
-        if dict(kvlist(cm.get("RULES", ""))) != dict(kvlist(m.get("RULES", ""))):
+        if dict(kvlist(cm.get("RULES", ""))) != {k: v for k, v in kvlist(m.get("RULES", "")) if k in const_names(m)[0]}:
             ndiff += 1
             ctx.violation(dict(base, what="R_* constants differ from the run-time rule indices", compiled=cm.get("RULES"), runtime=m.get("RULES")))
-        rtoks = {k: v for k, v in kvlist(m.get("TOKS", "")) if IDENT.match(unhx(k))}
+        rnames, tnames = const_names(m)
+        rtoks = {k: v for k, v in kvlist(m.get("TOKS", "")) if k in tnames}
         if dict(kvlist(cm.get("TOKS", ""))) != rtoks:
             ndiff += 1
             ctx.violation(dict(base, what="N_* constants differ from the run-time token indices", compiled=cm.get("TOKS"), runtime=m.get("TOKS")))
@@ -854,9 +976,29 @@ def pipeline_part(ctx, exe, mexe, d):
                 ndiff += 1
                 ctx.violation(dict(base, what="no result from the compiled parser", input=inp))
                 continue
+            calls = c.split(" @@ ")
+            c = calls[0]
             diffs, valcmp, det = compare_results(c, r)
             _, cval, cn, ces, _ = split_result(c)
             rlex, rval, rn, res_, red = split_result(r)
+            # the further calls of the generated parse() on an erroneous input: the same result as the first call
+            stats['ct_repeat_calls'] += len(calls) - 1
+            if cn and len(calls) != CT_CALLS:
+                diffs.append(("calls of the generated parse() on an erroneous input", len(calls), CT_CALLS))
+            for kc, ck in enumerate(calls[1:], 2):
+                if ck != c and (REPAIR_ORDER_FIXED or compare_results(ck, r)[0]):
+                    diffs.append(("call %d of the generated parse() on the same input returns another result than call 1" % kc, ck, c))
+                    break
+            tids = dict((unhx(k_), v_) for k_, v_ in kvlist(m.get("TOKS", "")))
+            avoid_ids = {tids[t] for t in (pr.get('avoid_insert') or []) if t in tids}
+            tied = [ix for ix, e_ in enumerate(res_) if tied_first_rank(e_, avoid_ids)]
+            if any(len(repair_seqs(e_)) >= 2 for e_ in res_):
+                stats['several_sequences'] += 1
+            if tied:
+                stats['tied_inputs'] += 1
+                stats['tied_first_error'] += 1 if tied[0] == 0 else 0
+                stats['tied_then_later_errors'] += 1 if tied[0] < len(res_) - 1 else 0
+                stats['tied_values'] += 1 if (valcmp and rval != "VAL -") else 0
             if "!" in rlex:
                 stats['lexerr'] += 1
                 if pr.get('unused_tokens'):
@@ -889,7 +1031,9 @@ def pipeline_part(ctx, exe, mexe, d):
                     if isinstance(x, str) and x.startswith("VAL ") and x != "VAL -":
                         return unhx(x[4:])
                     return x
-                ctx.violation(dict(base, input=inp, differences=[{"what": w, "compile_time": dec(a), "run_time": dec(b)} for w, a, b in diffs],
+                ctx.violation(dict(base, input=inp,
+                                   differences=[{"what": w, "this_call": a, "call_1": b} if w.startswith("call") else
+                                                {"what": w, "compile_time": dec(a), "run_time": dec(b)} for w, a, b in diffs],
                                    compiled_result=c, runtime_result=r.split(" | RED")[0],
                                    replay="./check C13 --tier %s --seed %d" % (ctx.tier, ctx.seed)))
             # the value recomputed by the Coq wrapper model from the run-time reduction log
@@ -916,6 +1060,14 @@ def pipeline_part(ctx, exe, mexe, d):
                                "proved wrapper model computes from the run-time parse", model=e, compiled=cval,
                                authority="C13_wrapper_args_spec, C13_dollar_k_denotes_kth"))
     ctx.oblige(ndiff == 0, "pipeline correspondence")
+    # the inputs C13_ct_equals_rt_value is about beyond C13_ct_runs_are_rt_runs: an error whose repairs() list starts with
+    # >= 2 sequences of one rank — which one is applied (and so the value and the later errors) is decided by the order alone
+    tied_ok = stats['tied_inputs'] >= 50 and stats['tied_then_later_errors'] > 0 and stats['tied_values'] > 0
+    ctx.oblige(tied_ok, "coverage: >= 50 inputs with >= 2 first-rank repair sequences (value, later errors, repairs() order compared)")
+    if not tied_ok:
+        ctx.violation({"kind": "correspondence-only", "what": "the run no longer reaches 50 inputs with several equally ranked repair "
+                       "sequences (families tied:audit / tied:alt / tied:openers): %d such inputs, %d followed by later errors, %d with a value"
+                       % (stats['tied_inputs'], stats['tied_then_later_errors'], stats['tied_values'])}, no_input=True)
     ctx.oblige(stats['avoid_insert_err_values'] > 0 or not any(p.get('pinned') and p['name'] not in broken for p in accepted),
                "coverage: a compared value in which an %avoid_insert token was inserted (Err)")
     live = [p for p in accepted if p['name'] not in broken and p['name'] in outputs and "PANIC" not in outputs[p['name']]]
@@ -967,7 +1119,7 @@ def run(ctx):
     ctx.coverage["disagreements_checked"] = stats['inputs']
     ctx.coverage["exhaustive"] = False
     ctx.coverage["rule"] = (
-        "scanner: %d action texts (corpus, all pairs of `$`-pieces, random mixtures incl. non-ASCII numeric characters), "
+        ("scanner: %d action texts (corpus, all pairs of `$`-pieces, random mixtures incl. non-ASCII numeric characters), "
         "non-trivial = at least two `$`; flags (static, generation only): %d lexers, every flag set alone (each boolean value; "
         "section and builder API) and every pair of boolean flags with differing values, the quoted options of lexerdef() read back "
         "and evaluated by the model; module text (every generated program: facts P1-P4, L1 of theories/C13/PipelineModel.v read off "
@@ -979,11 +1131,21 @@ def run(ctx):
         "serialisation format x edition x visibility x module names x entry point (build | process_file) x "
         "allow_missing_tokens_in_parser x lexer flags via %%grmtools section or builder API) "
         "compiled in one throw-away crate, each run on sentences, near-sentences and flag-sensitive inputs; a case = "
-        "(program, settings, input), distinct by its full text, non-trivial = input of at least 3 words; values are "
-        "compared when every error has at most one repair sequence (%d inputs skipped the value/later-error comparison "
-        "because the applied repair is not determined), %d compared values contain an Err($k) for an inserted lexeme; "
-        "%d specifications rejected by the builders (random grammars with conflicts) were skipped" % (
-            ntexts, nstatic, nprog, stats['nondet_skipped'], stats['err_values'], skipped))
+        "(program, settings, input), distinct by its full text, non-trivial = input of at least 3 words; " % (ntexts, nstatic, nprog))
+        + ("value, number of errors and every error's repairs() list IN ORDER are compared on EVERY input (generated parse() vs run-time "
+           "call vs the wrapper model; /repo ca69cd1: the applied repair is a function of the input), each erroneous input is parsed %d "
+           "times by the generated parse() (%d further calls, all equal to the first); %d inputs have an error with several repair "
+           "sequences, %d of them >= 2 sequences of the FIRST rank (families tied:audit — the auditor's `S: 'a' | 'b'` on the empty "
+           "input —, tied:alt, tied:openers: %d at the first error, %d followed by later errors, %d with a value); "
+           % (CT_CALLS, stats['ct_repeat_calls'], stats['several_sequences'], stats['tied_inputs'], stats['tied_first_error'],
+              stats['tied_then_later_errors'], stats['tied_values'])
+           if REPAIR_ORDER_FIXED else
+           "values are compared when every error has at most one repair sequence (%d inputs skipped the value/later-error comparison "
+           "because the applied repair is not determined); " % stats['nondet_skipped'])
+        + "%d compared values contain an Err($k) for an inserted lexeme; "
+          "%d specifications rejected by the builders (random grammars with conflicts) were skipped; SCOPE programs (builders Ok, "
+          "rustc expected to reject: premise 'once compiled' not met — recorded under scope_observations, compared if they compile): %s"
+          % (stats['err_values'], skipped, "; ".join("%s -> %s" % (o["program"], o["rustc"][:60]) for o in ctx.coverage.get("scope_observations", []))))
     ctx.coverage["explanation"] = (
         "level 'proof' is claimed for the Coq-carried parts only: the `$`-substitution scanner (all texts), the wrapper's "
         "argument unpacking and `$k` binding (all productions), flag propagation (all headers), and the composition of the PIPELINE over "
@@ -1020,8 +1182,21 @@ def run(ctx):
         "non-ASCII characters of the text in Unicode categories Nd/Nl/No (Python unicodedata)",
         "scanner mirror indexes by character, the code by byte: all slice positions are sums of find() offsets and lengths of "
         "ASCII strings, hence character boundaries",
-        "repairs are compared as sets; after an error with more than one repair sequence the applied repair is not determined "
-        "(randomly seeded HashSet in cpctplus) so later errors and the value are not compared for that input",
+        ("PER RUN (theories/C13/PipelineRun*.v): C13_ct_equals_rt takes the run-time parser as a FUNCTION; with the parser a relation "
+         "(one run may return r) C13_ct_runs_are_rt_runs gives the same SET of outcomes for the generated parse() and the run-time call, "
+         "and C13_ct_equals_rt_value equal (value, errors) on every input under applied_repair_determined — the fact /repo ca69cd1 "
+         "established (simplify_repairs: insertion-ordered dedup + stable sort; mirror proved deterministic in C05_simplify_deterministic); "
+         "C13_ct_equals_rt_value_refuted: for the pinned selection (any enumeration sorted by rank) the auditor's grammar has a "
+         "generated-parser run and a run-time run with different values.  The check compares the repairs() lists in order, the value "
+         "and the later errors on every input and calls the generated parse() %d times per erroneous input" % CT_CALLS)
+        if REPAIR_ORDER_FIXED else
+        ("repairs are compared as sets; after an error with more than one repair sequence the applied repair is not determined "
+         "(randomly seeded HashSet in cpctplus) so later errors and the value are not compared for that input"),
+        "SCOPE (premise 'once compiled'): specifications the builders accept whose generated module rustc rejects are outside the "
+        "property — rule or token names differing only in ASCII case (duplicate `R_*` / `N_*` constants, E0428), a %parse-param "
+        "named like a local of the generated parse() (`grm`, likewise `stable`, `actions`, `__data`, `lexer`; E0308/E0415): generated "
+        "each run, rustc's verdict recorded under coverage.scope_observations (an observation, not an obligation); if such a module "
+        "compiles it is compared with the run-time pipeline like every other program",
         "state indices of parse errors are not compared (internal numbering)",
         "GRMTOOLS_VERIF_RECOVERY_BUDGET_MS=60000 (existing cfg(grmtools_verif) hook) on both sides so that the recovery time "
         "budget cannot make repair sets load-dependent",
